@@ -52,14 +52,14 @@ func (f *Mapc) Call(s *slip.Scope, args slip.List, depth int) (result slip.Objec
 	caller := ResolveToCaller(s, fn, d2)
 
 	list, ok := args[1].(slip.List)
-	if !ok {
+	if !ok && args[1] != nil {
 		slip.TypePanic(s, depth, "lists", args[1], "list")
 	}
 	if 1 < len(args)-1 {
 		min := len(list)
 		var l2 slip.List
 		for i := 1; i < len(args); i++ {
-			if l2, ok = args[i].(slip.List); !ok {
+			if l2, ok = args[i].(slip.List); !ok && args[i] != nil {
 				slip.TypePanic(s, depth, "lists", args[i], "list")
 			}
 			if len(l2) < min {
@@ -69,7 +69,7 @@ func (f *Mapc) Call(s *slip.Scope, args slip.List, depth int) (result slip.Objec
 		ca := make(slip.List, len(args)-1)
 		for n := 0; n < min; n++ {
 			for i := 1; i < len(args); i++ {
-				l2 := args[i].(slip.List)
+				l2, _ := args[i].(slip.List)
 				ca[i-1] = l2[n]
 			}
 			if r := caller.Call(s, ca, d2); slip.IsExit(r) {
@@ -84,5 +84,5 @@ func (f *Mapc) Call(s *slip.Scope, args slip.List, depth int) (result slip.Objec
 			}
 		}
 	}
-	return list
+	return args[1]
 }
